@@ -48,13 +48,13 @@ pub proof fn wf_repeat_at(ss: Seq<LuaScope>, i: int)
         &&& kd(ss, b) == LuaScopeKind::Normal
         &&& forall|k: int| 0 <= k < kids(ss, i).len() ==> #[trigger] kids(ss, i)[k] is Scope
         &&& forall|k: int| 0 <= k < kids(ss, b).len() ==> #[trigger] kids(ss, b)[k] is Scope })
-{ reveal(tree_wf); }
+{ reveal(tree_wf); assert(is_repeat(ss, i)); }
 
 pub proof fn wf_stmt_at(ss: Seq<LuaScope>, i: int)
     requires tree_wf(ss), 0 <= i < ss.len(), stmt_kind(kd(ss, i))
     ensures st(ss, i) < en(ss, i), i > 0, 0 <= par(ss, i) < i, kd(ss, par(ss, i)) == LuaScopeKind::Normal,
         forall|k: int| 0 <= k < kids(ss, i).len() ==> (#[trigger] kids(ss, i)[k] is Decl ==> st(ss, i) <= cpos(ss, kids(ss, i)[k]) < en(ss, i))
-{ reveal(tree_wf); }
+{ reveal(tree_wf); assert(is_stmt(ss, i)); }
 
 pub proof fn wf_func_at(ss: Seq<LuaScope>, i: int)
     requires tree_wf(ss), 0 <= i < ss.len(), func_kind(kd(ss, i))
@@ -62,7 +62,7 @@ pub proof fn wf_func_at(ss: Seq<LuaScope>, i: int)
         forall|k: int| 0 <= k < kids(ss, i).len() ==> (#[trigger] kids(ss, i)[k] is Scope ==> st(ss, i) < st(ss, sidx(kids(ss, i)[k]))),
         forall|a: int, b: int| 0 <= a < kids(ss, i).len() && 0 <= b < kids(ss, i).len()
                 && #[trigger] kids(ss, i)[a] is Decl && #[trigger] kids(ss, i)[b] is Decl ==> a == b
-{ reveal(tree_wf); }
+{ reveal(tree_wf); assert(is_func(ss, i)); }
 
 pub proof fn wf_declpos_at(ss: Seq<LuaScope>, i: int, b: int, k: int)
     requires tree_wf(ss), 0 <= i < ss.len(), 0 <= b < kids(ss, i).len(), kids(ss, i)[b] is Scope,
@@ -154,4 +154,709 @@ pub proof fn lemma_leaf_innermost(ss: Seq<LuaScope>, l: int, a: int, p: int)
         let k = lemma_path_child(ss, l, a, p);
         assert(false);
     }
+}
+
+// ---- what one search_scope_children call emits -----------------------------------------------------------------------------------------
+pub proof fn lemma_concat_contains<A>(a: Seq<A>, b: Seq<A>, x: A)
+    ensures (a + b).contains(x) <==> (a.contains(x) || b.contains(x))
+{
+    if a.contains(x) { let i = choose|i: int| 0 <= i < a.len() && a[i] == x; assert((a + b)[i] == x); }
+    if b.contains(x) { let i = choose|i: int| 0 <= i < b.len() && b[i] == x; assert((a + b)[a.len() + i] == x); }
+    if (a + b).contains(x) {
+        let i = choose|i: int| 0 <= i < (a + b).len() && (a + b)[i] == x;
+        if i < a.len() { assert(a[i] == x); } else { assert(b[i - a.len()] == x); }
+    }
+}
+pub open spec fn listed_from(ks: Seq<ScopeOrDeclId>, k: int, x: ScopeOrDeclId) -> bool {
+    x is Decl && exists|j: int| k <= j < ks.len() && ks[j] == x
+}
+pub proof fn lemma_decls_from_char(ks: Seq<ScopeOrDeclId>, k: int, x: ScopeOrDeclId)
+    requires 0 <= k
+    ensures decls_from(ks, k).contains(x) <==> listed_from(ks, k, x)
+    decreases ks.len() - k
+{
+    if k < ks.len() {
+        lemma_decls_from_char(ks, k + 1, x);
+        if ks[k] is Decl {
+            lemma_concat_contains(seq![ks[k]], decls_from(ks, k + 1), x);
+            assert(seq![ks[k]].contains(x) <==> x == ks[k]) by {
+                if x == ks[k] { assert(seq![ks[k]][0] == x); }
+            }
+        }
+        if listed_from(ks, k, x) {
+            let j = choose|j: int| k <= j < ks.len() && ks[j] == x;
+            if j > k { assert(listed_from(ks, k + 1, x)); }
+        }
+        if listed_from(ks, k + 1, x) {
+            let j = choose|j: int| k + 1 <= j < ks.len() && ks[j] == x;
+            assert(k <= j < ks.len() && ks[j] == x);
+        }
+    }
+}
+/// x is what the reverse walk emits for child c: the declaration itself, or one of the declarations of a statement scope
+pub open spec fn child_has(ss: Seq<LuaScope>, c: ScopeOrDeclId, x: ScopeOrDeclId) -> bool {
+    match c {
+        ScopeOrDeclId::Decl(_) => x == c,
+        ScopeOrDeclId::Scope(sid) => (sid.id as int) < ss.len() && stmt_kind(kd(ss, sid.id as int)) && listed_from(kids(ss, sid.id as int), 0, x),
+    }
+}
+pub proof fn lemma_child_char(ss: Seq<LuaScope>, c: ScopeOrDeclId, x: ScopeOrDeclId)
+    ensures m_child(ss, c).contains(x) <==> child_has(ss, c, x)
+{
+    match c {
+        ScopeOrDeclId::Decl(_) => { if x == c { assert(seq![c][0] == x); } }
+        ScopeOrDeclId::Scope(sid) => {
+            if (sid.id as int) < ss.len() && stmt_kind(kd(ss, sid.id as int)) { lemma_decls_from_char(kids(ss, sid.id as int), 0, x); }
+        }
+    }
+}
+pub open spec fn walk_has(ss: Seq<LuaScope>, ks: Seq<ScopeOrDeclId>, j: int, x: ScopeOrDeclId) -> bool {
+    exists|k: int| 0 <= k <= j && child_has(ss, ks[k], x)
+}
+pub proof fn lemma_walk_char(ss: Seq<LuaScope>, ks: Seq<ScopeOrDeclId>, j: int, x: ScopeOrDeclId)
+    requires -1 <= j < ks.len()
+    ensures m_walk(ss, ks, j).contains(x) <==> walk_has(ss, ks, j, x)
+    decreases j + 1
+{
+    if j >= 0 {
+        lemma_walk_char(ss, ks, j - 1, x);
+        lemma_child_char(ss, ks[j], x);
+        lemma_concat_contains(m_child(ss, ks[j]), m_walk(ss, ks, j - 1), x);
+        if walk_has(ss, ks, j, x) {
+            let k = choose|k: int| 0 <= k <= j && child_has(ss, ks[k], x);
+            if k < j { assert(walk_has(ss, ks, j - 1, x)); }
+        }
+        if walk_has(ss, ks, j - 1, x) {
+            let k = choose|k: int| 0 <= k <= j - 1 && child_has(ss, ks[k], x);
+            assert(0 <= k <= j && child_has(ss, ks[k], x));
+        }
+    }
+}
+pub proof fn lemma_cut_props(ss: Seq<LuaScope>, ks: Seq<ScopeOrDeclId>, p: int, k: int)
+    requires 0 <= k <= ks.len()
+    ensures ({ let c = m_cut(ss, ks, p, k);
+        -1 <= c < k + (if k == 0 { 1int } else { 0int }) && (c >= 0 ==> before(ss, ks[c], p)) && forall|j: int| c < j < k ==> !before(ss, ks[j], p) })
+    decreases k
+{
+    if k > 0 && !before(ss, ks[k - 1], p) { lemma_cut_props(ss, ks, p, k - 1); }
+}
+/// what search_scope_children(i, p) emits, in an ordered scope: the children that start before p, each with what it exposes
+pub open spec fn search_has(ss: Seq<LuaScope>, i: int, p: int, x: ScopeOrDeclId) -> bool {
+    exists|k: int| 0 <= k < kids(ss, i).len() && before(ss, kids(ss, i)[k], p) && child_has(ss, kids(ss, i)[k], x)
+}
+pub proof fn lemma_search_char(ss: Seq<LuaScope>, i: int, p: int, x: ScopeOrDeclId)
+    requires tree_wf(ss), 0 <= i < ss.len(), kd(ss, i) != LuaScopeKind::LocalOrAssignStat
+    ensures m_search(ss, i, p).contains(x) <==> search_has(ss, i, p, x)
+{
+    let ks = kids(ss, i);
+    let c = m_cut(ss, ks, p, ks.len() as int);
+    lemma_cut_props(ss, ks, p, ks.len() as int);
+    lemma_walk_char(ss, ks, c, x);
+    wf_basic(ss);
+    if walk_has(ss, ks, c, x) {
+        let k = choose|k: int| 0 <= k <= c && child_has(ss, ks[k], x);
+        if k < c {
+            wf_order_at(ss, i, k, c);
+            if ks[k] is Scope { wf_child(ss, i, k); }
+        }
+        assert(before(ss, ks[k], p));
+        assert(search_has(ss, i, p, x));
+    }
+    if search_has(ss, i, p, x) {
+        let k = choose|k: int| 0 <= k < ks.len() && before(ss, ks[k], p) && child_has(ss, ks[k], x);
+        assert(k <= c);
+        assert(walk_has(ss, ks, c, x));
+    }
+}
+
+// ---- one level of the chain: the search position p against the real position pos -------------------------------------------------------
+/// how a child scope c of a searched scope lies relative to (p, pos): entirely before p; entirely after pos; or it is the child the
+/// lookup came from (it contains pos, p is pos or the start of a statement in it; if it is itself a statement, the cutoff / keyword rules)
+pub open spec fn child_state(ss: Seq<LuaScope>, c: int, p: int, pos: int) -> bool {
+    en(ss, c) <= p || pos < st(ss, c)
+        || (st(ss, c) <= p && pos < en(ss, c)
+            && (kd(ss, c) == LuaScopeKind::LocalOrAssignStat ==> p == st(ss, c))
+            && (func_kind(kd(ss, c)) ==> (st(ss, c) < pos ==> st(ss, c) < p)))
+}
+pub open spec fn ctx0(ss: Seq<LuaScope>, i: int, p: int, pos: int) -> bool {
+    &&& 0 <= i < ss.len() && p <= pos
+    &&& forall|k: int| 0 <= k < kids(ss, i).len() ==> (#[trigger] kids(ss, i)[k] is Decl ==> cpos(ss, kids(ss, i)[k]) < p || pos <= cpos(ss, kids(ss, i)[k]))
+    &&& forall|k: int| 0 <= k < kids(ss, i).len() ==> (#[trigger] kids(ss, i)[k] is Scope ==> child_state(ss, sidx(kids(ss, i)[k]), p, pos))
+}
+pub open spec fn stmt_after(ss: Seq<LuaScope>, s: int, pos: int) -> bool {
+    if kd(ss, s) == LuaScopeKind::LocalOrAssignStat { en(ss, s) <= pos } else { st(ss, s) < pos }
+}
+/// x is visible at pos through level i: a declaration of i before pos, or a name of a statement of block i that has taken effect at pos
+pub open spec fn level_vis(ss: Seq<LuaScope>, i: int, x: ScopeOrDeclId, pos: int) -> bool {
+    x is Decl && exists|k: int| 0 <= k < kids(ss, i).len() && (
+        (#[trigger] kids(ss, i)[k] == x && cpos(ss, x) < pos)
+        || (kids(ss, i)[k] is Scope && sidx(kids(ss, i)[k]) < ss.len() && stmt_kind(kd(ss, sidx(kids(ss, i)[k])))
+            && listed_from(kids(ss, sidx(kids(ss, i)[k])), 0, x) && stmt_after(ss, sidx(kids(ss, i)[k]), pos)))
+}
+pub proof fn lemma_level_char(ss: Seq<LuaScope>, i: int, p: int, pos: int, x: ScopeOrDeclId)
+    requires tree_wf(ss), ctx0(ss, i, p, pos), kd(ss, i) != LuaScopeKind::LocalOrAssignStat
+    ensures m_search(ss, i, p).contains(x) <==> level_vis(ss, i, x, pos)
+{
+    lemma_search_char(ss, i, p, x);
+    let ks = kids(ss, i);
+    if search_has(ss, i, p, x) {
+        let k = choose|k: int| 0 <= k < ks.len() && before(ss, ks[k], p) && child_has(ss, ks[k], x);
+        if ks[k] is Scope {
+            let c = sidx(ks[k]);
+            assert(child_state(ss, c, p, pos));
+            assert(stmt_after(ss, c, pos));
+        }
+        assert(level_vis(ss, i, x, pos));
+    }
+    if level_vis(ss, i, x, pos) {
+        let k = choose|k: int| 0 <= k < ks.len() && (
+            (#[trigger] ks[k] == x && cpos(ss, x) < pos)
+            || (ks[k] is Scope && sidx(ks[k]) < ss.len() && stmt_kind(kd(ss, sidx(ks[k])))
+                && listed_from(kids(ss, sidx(ks[k])), 0, x) && stmt_after(ss, sidx(ks[k]), pos)));
+        if ks[k] is Scope {
+            let c = sidx(ks[k]);
+            wf_child(ss, i, k);
+            wf_stmt_at(ss, c);
+            assert(child_state(ss, c, p, pos));
+            assert(before(ss, ks[k], p));
+        } else {
+            assert(before(ss, ks[k], p));
+        }
+        assert(child_has(ss, ks[k], x));
+        assert(search_has(ss, i, p, x));
+    }
+}
+pub proof fn lemma_ctx_from_child(ss: Seq<LuaScope>, u: int, b: int, p: int, pos: int)
+    requires tree_wf(ss), 0 < u < ss.len(), 0 <= par(ss, u) < u, is_scope_child(ss, par(ss, u), b, u),
+        kd(ss, par(ss, u)) != LuaScopeKind::LocalOrAssignStat, child_state(ss, u, p, pos), st(ss, u) <= p <= pos < en(ss, u)
+    ensures ctx0(ss, par(ss, u), p, pos)
+{
+    let i = par(ss, u);
+    let ks = kids(ss, i);
+    assert forall|k: int| 0 <= k < ks.len() implies (#[trigger] ks[k] is Decl ==> cpos(ss, ks[k]) < p || pos <= cpos(ss, ks[k])) by {
+        if k < b { wf_order_at(ss, i, k, b); } else if k > b { wf_order_at(ss, i, b, k); }
+    }
+    assert forall|k: int| 0 <= k < ks.len() implies (#[trigger] ks[k] is Scope ==> child_state(ss, sidx(ks[k]), p, pos)) by {
+        if k < b { wf_order_at(ss, i, k, b); } else if k > b { wf_order_at(ss, i, b, k); }
+    }
+}
+pub proof fn lemma_ctx_leaf(ss: Seq<LuaScope>, l: int, pos: int)
+    requires tree_wf(ss), is_leaf(ss, l, pos)
+    ensures ctx0(ss, l, pos, pos)
+{
+    let ks = kids(ss, l);
+    assert forall|k: int| 0 <= k < ks.len() implies (#[trigger] ks[k] is Scope ==> child_state(ss, sidx(ks[k]), pos, pos)) by {
+        if ks[k] is Scope { assert(kids(ss, l)[k] matches ScopeOrDeclId::Scope(sid) ==> !rng(ss, sid.id as int, pos)); }
+    }
+}
+/// a block that holds scopes only and does not contain pos (it ends at or before p, or starts after pos)
+pub proof fn lemma_ctx_aside(ss: Seq<LuaScope>, c: int, p: int, pos: int)
+    requires tree_wf(ss), 0 <= c < ss.len(), p <= pos, en(ss, c) <= p || pos < st(ss, c),
+        forall|k: int| 0 <= k < kids(ss, c).len() ==> #[trigger] kids(ss, c)[k] is Scope
+    ensures ctx0(ss, c, p, pos)
+{
+    let ks = kids(ss, c);
+    assert forall|k: int| 0 <= k < ks.len() implies (#[trigger] ks[k] is Scope ==> child_state(ss, sidx(ks[k]), p, pos)) by {
+        wf_child(ss, c, k);
+    }
+}
+
+// ---- from one level to `visible` and back ------------------------------------------------------------------------------------------------
+pub open spec fn sound_seq(ss: Seq<LuaScope>, t: Seq<ScopeOrDeclId>, pos: int) -> bool {
+    forall|x: ScopeOrDeclId| #[trigger] t.contains(x) ==> (x is Decl && visible(ss, x->Decl_0, pos, false))
+}
+/// the chain scope whose search emits the declarations held by scope s
+pub open spec fn lvl(ss: Seq<LuaScope>, s: int, pos: int) -> int {
+    if stmt_kind(kd(ss, s)) { if inside(ss, par(ss, s), pos) { par(ss, s) } else { par(ss, par(ss, s)) } } else { s }
+}
+pub open spec fn complete_from(ss: Seq<LuaScope>, t: Seq<ScopeOrDeclId>, pos: int, top: int) -> bool {
+    forall|s: int, k: int, d: LuaDeclId| 0 <= s < ss.len() && #[trigger] is_decl_child(ss, s, k, d) && region(ss, s, d, pos, false) && lvl(ss, s, pos) <= top
+        ==> t.contains(ScopeOrDeclId::Decl(d))
+}
+pub proof fn lemma_level_sound(ss: Seq<LuaScope>, i: int, pos: int, x: ScopeOrDeclId)
+    requires tree_wf(ss), 0 <= i < ss.len(), inside(ss, i, pos), level_vis(ss, i, x, pos), kd(ss, i) != LuaScopeKind::LocalOrAssignStat,
+        kd(ss, i) == LuaScopeKind::ForRange ==> in_some_child(ss, i, pos)
+    ensures x is Decl, visible(ss, x->Decl_0, pos, false)
+{
+    let ks = kids(ss, i);
+    let d = x->Decl_0;
+    let k = choose|k: int| 0 <= k < ks.len() && (
+        (#[trigger] ks[k] == x && cpos(ss, x) < pos)
+        || (ks[k] is Scope && sidx(ks[k]) < ss.len() && stmt_kind(kd(ss, sidx(ks[k])))
+            && listed_from(kids(ss, sidx(ks[k])), 0, x) && stmt_after(ss, sidx(ks[k]), pos)));
+    if ks[k] is Scope {
+        let c = sidx(ks[k]);
+        wf_child(ss, i, k);
+        let j = choose|j: int| 0 <= j < kids(ss, c).len() && kids(ss, c)[j] == x;
+        assert(is_decl_child(ss, c, j, d));
+        assert(ext_inside(ss, i, pos));
+        assert(region(ss, c, d, pos, false));
+    } else {
+        assert(is_decl_child(ss, i, k, d));
+        if kd(ss, i) == LuaScopeKind::Repeat { wf_repeat_at(ss, i); assert(kids(ss, i)[k] is Scope); }
+        if func_kind(kd(ss, i)) {
+            wf_stmt_at(ss, i);
+            lemma_inside_parent(ss, i, pos);
+            assert(ext_inside(ss, par(ss, i), pos));
+        }
+        assert(region(ss, i, d, pos, false));
+    }
+}
+/// the names of the statements of a repeat body, seen from the rest of the repeat statement
+pub proof fn lemma_body_level_sound(ss: Seq<LuaScope>, rp: int, pos: int, x: ScopeOrDeclId)
+    requires tree_wf(ss), 0 <= rp < ss.len(), kd(ss, rp) == LuaScopeKind::Repeat, inside(ss, rp, pos), level_vis(ss, first_scope(ss, rp), x, pos)
+    ensures x is Decl, visible(ss, x->Decl_0, pos, false)
+{
+    wf_repeat_at(ss, rp);
+    let i = first_scope(ss, rp);
+    let ks = kids(ss, i);
+    let d = x->Decl_0;
+    let k = choose|k: int| 0 <= k < ks.len() && (
+        (#[trigger] ks[k] == x && cpos(ss, x) < pos)
+        || (ks[k] is Scope && sidx(ks[k]) < ss.len() && stmt_kind(kd(ss, sidx(ks[k])))
+            && listed_from(kids(ss, sidx(ks[k])), 0, x) && stmt_after(ss, sidx(ks[k]), pos)));
+    assert(ks[k] is Scope);
+    let c = sidx(ks[k]);
+    wf_child(ss, i, k);
+    let j = choose|j: int| 0 <= j < kids(ss, c).len() && kids(ss, c)[j] == x;
+    assert(is_decl_child(ss, c, j, d));
+    assert(ext_inside(ss, i, pos));
+    assert(region(ss, c, d, pos, false));
+}
+/// a visible declaration whose level is i shows at level i
+pub proof fn lemma_level_complete(ss: Seq<LuaScope>, i: int, pos: int, s: int, k: int, d: LuaDeclId)
+    requires tree_wf(ss), 0 <= s < ss.len(), is_decl_child(ss, s, k, d), region(ss, s, d, pos, false),
+        (s == i && !stmt_kind(kd(ss, s))) || (stmt_kind(kd(ss, s)) && par(ss, s) == i)
+    ensures level_vis(ss, i, ScopeOrDeclId::Decl(d), pos)
+{
+    let x = ScopeOrDeclId::Decl(d);
+    if s == i && !stmt_kind(kd(ss, s)) {
+        assert(kids(ss, i)[k] == x && cpos(ss, x) < pos);
+    } else {
+        wf_stmt_at(ss, s);
+        let k2 = wf_parent(ss, s);
+        assert(kids(ss, i)[k2] is Scope && sidx(kids(ss, i)[k2]) == s);
+        assert(listed_from(kids(ss, s), 0, x));
+        assert(stmt_after(ss, s, pos));
+    }
+}
+/// the level of a visible declaration is a scope around pos that is searched; if it is not i (a scope around pos) it is above i
+pub proof fn lemma_lvl_chain(ss: Seq<LuaScope>, s: int, k: int, d: LuaDeclId, pos: int, i: int)
+    requires tree_wf(ss), 0 <= s < ss.len(), is_decl_child(ss, s, k, d), region(ss, s, d, pos, false), 0 <= i < ss.len(), inside(ss, i, pos),
+        lvl(ss, s, pos) <= i
+    ensures ({ let l = lvl(ss, s, pos);
+        0 <= l < ss.len() && inside(ss, l, pos) && kd(ss, l) != LuaScopeKind::LocalOrAssignStat && (l < i ==> 0 <= par(ss, i) < i && l <= par(ss, i)) })
+{
+    let l = lvl(ss, s, pos);
+    if stmt_kind(kd(ss, s)) {
+        wf_stmt_at(ss, s);
+    } else if kd(ss, s) == LuaScopeKind::ForRange {
+        let kc = choose|kc: int| 0 <= kc < kids(ss, s).len() && (#[trigger] kids(ss, s)[kc] matches ScopeOrDeclId::Scope(sid) && rng(ss, sid.id as int, pos));
+        wf_child(ss, s, kc);
+        lemma_inside_parent(ss, sidx(kids(ss, s)[kc]), pos);
+    }
+    assert(0 <= l < ss.len() && inside(ss, l, pos));
+    if l < i {
+        lemma_chain(ss, l, i, pos);
+        lemma_anc_le(ss, l, par(ss, i));
+    }
+}
+
+// ---- walking up the chain ---------------------------------------------------------------------------------------------------------------
+/// the lookup leaves scope u (around pos) towards its parent with search position p
+pub open spec fn chain_step(ss: Seq<LuaScope>, u: int, p: int, pos: int) -> bool {
+    &&& 0 < u < ss.len() && st(ss, u) <= p <= pos < en(ss, u)
+    &&& child_state(ss, u, p, pos)
+    &&& (0 <= par(ss, u) < u && kd(ss, par(ss, u)) == LuaScopeKind::Repeat && first_scope(ss, par(ss, u)) == u) ==> ctx0(ss, u, p, pos)
+}
+pub proof fn lemma_sound_concat(ss: Seq<LuaScope>, a: Seq<ScopeOrDeclId>, b: Seq<ScopeOrDeclId>, pos: int)
+    requires sound_seq(ss, a, pos), sound_seq(ss, b, pos)
+    ensures sound_seq(ss, a + b, pos)
+{
+    assert forall|x: ScopeOrDeclId| #[trigger] (a + b).contains(x) implies (x is Decl && visible(ss, x->Decl_0, pos, false)) by {
+        lemma_concat_contains(a, b, x);
+    }
+}
+pub proof fn lemma_sound_empty(ss: Seq<LuaScope>, pos: int)
+    ensures sound_seq(ss, Seq::<ScopeOrDeclId>::empty(), pos)
+{}
+/// soundness of one search in a scope around pos
+pub proof fn lemma_search_sound(ss: Seq<LuaScope>, i: int, p: int, pos: int)
+    requires tree_wf(ss), ctx0(ss, i, p, pos), inside(ss, i, pos), kd(ss, i) != LuaScopeKind::LocalOrAssignStat,
+        kd(ss, i) == LuaScopeKind::ForRange ==> in_some_child(ss, i, pos)
+    ensures sound_seq(ss, m_search(ss, i, p), pos)
+{
+    assert forall|x: ScopeOrDeclId| #[trigger] m_search(ss, i, p).contains(x) implies (x is Decl && visible(ss, x->Decl_0, pos, false)) by {
+        lemma_level_char(ss, i, p, pos, x);
+        lemma_level_sound(ss, i, pos, x);
+    }
+}
+/// soundness of the search of a repeat body from the rest of the repeat statement
+pub proof fn lemma_body_search_sound(ss: Seq<LuaScope>, rp: int, p: int, pos: int)
+    requires tree_wf(ss), 0 <= rp < ss.len(), kd(ss, rp) == LuaScopeKind::Repeat, inside(ss, rp, pos), ctx0(ss, first_scope(ss, rp), p, pos)
+    ensures sound_seq(ss, m_search(ss, first_scope(ss, rp), p), pos)
+{
+    wf_repeat_at(ss, rp);
+    let b = first_scope(ss, rp);
+    assert forall|x: ScopeOrDeclId| #[trigger] m_search(ss, b, p).contains(x) implies (x is Decl && visible(ss, x->Decl_0, pos, false)) by {
+        lemma_level_char(ss, b, p, pos, x);
+        lemma_body_level_sound(ss, rp, pos, x);
+    }
+}
+/// everything emitted above scope u is visible, and everything visible whose level is above u is emitted
+pub proof fn lemma_up(ss: Seq<LuaScope>, u: int, p: int, pos: int)
+    requires tree_wf(ss), chain_step(ss, u, p, pos)
+    ensures sound_seq(ss, m_up(ss, u, p), pos), complete_from(ss, m_up(ss, u, p), pos, par(ss, u))
+    decreases u
+{
+    let b = wf_parent(ss, u);
+    let i = par(ss, u);
+    lemma_inside_parent(ss, u, pos);
+    lemma_visit_unfold(ss, u, p, false);
+    lemma_visit_unfold(ss, i, p, false);
+    let t = m_up(ss, u, p);
+    assert(t == m_visit(ss, i, p, false));
+    if kd(ss, i) == LuaScopeKind::LocalOrAssignStat {
+        wf_stmt_at(ss, i);
+        let ki = wf_parent(ss, i);
+        lemma_up(ss, i, st(ss, i), pos);
+        assert(t == m_up(ss, i, st(ss, i)));
+        assert forall|s: int, k: int, d: LuaDeclId| 0 <= s < ss.len() && #[trigger] is_decl_child(ss, s, k, d) && region(ss, s, d, pos, false) && lvl(ss, s, pos) <= i
+            implies t.contains(ScopeOrDeclId::Decl(d)) by {
+            lemma_lvl_chain(ss, s, k, d, pos, i);
+        }
+    } else {
+        lemma_ctx_from_child(ss, u, b, p, pos);
+        let bs = m_search(ss, i, p);
+        let cs = m_up(ss, i, p);
+        if kd(ss, i) == LuaScopeKind::ForRange { assert(kids(ss, i)[b] matches ScopeOrDeclId::Scope(sid) && rng(ss, sid.id as int, pos)); }
+        lemma_search_sound(ss, i, p, pos);
+        // the enclosing scopes
+        if i > 0 {
+            let ki = wf_parent(ss, i);
+            if func_kind(kd(ss, i)) { wf_func_at(ss, i); assert(kids(ss, i)[b] is Scope); }
+            assert(chain_step(ss, i, p, pos));
+            lemma_up(ss, i, p, pos);
+        } else {
+            wf_basic(ss);
+            assert(cs =~= Seq::<ScopeOrDeclId>::empty());
+        }
+        // the body of a repeat statement, searched from the statement
+        let a_s = if kd(ss, i) == LuaScopeKind::Repeat && first_scope(ss, i) >= 0 { m_search(ss, first_scope(ss, i), p) } else { Seq::<ScopeOrDeclId>::empty() };
+        if kd(ss, i) == LuaScopeKind::Repeat {
+            wf_repeat_at(ss, i);
+            let body = first_scope(ss, i);
+            if b != 0 {
+                wf_order_at(ss, i, 0, b);
+                lemma_ctx_aside(ss, body, p, pos);
+            }
+            lemma_body_search_sound(ss, i, p, pos);
+            assert(t == a_s + bs + cs);
+        } else {
+            assert(t == bs + cs);
+            assert(a_s + bs =~= bs);
+        }
+        lemma_sound_concat(ss, a_s, bs, pos);
+        lemma_sound_concat(ss, a_s + bs, cs, pos);
+        assert(t == a_s + bs + cs);
+        assert forall|s: int, k: int, d: LuaDeclId| 0 <= s < ss.len() && #[trigger] is_decl_child(ss, s, k, d) && region(ss, s, d, pos, false) && lvl(ss, s, pos) <= i
+            implies t.contains(ScopeOrDeclId::Decl(d)) by {
+            let x = ScopeOrDeclId::Decl(d);
+            lemma_lvl_chain(ss, s, k, d, pos, i);
+            lemma_concat_contains(a_s + bs, cs, x);
+            lemma_concat_contains(a_s, bs, x);
+            if lvl(ss, s, pos) == i {
+                if stmt_kind(kd(ss, s)) && !inside(ss, par(ss, s), pos) {
+                    // a statement of the repeat body, pos in the rest of the repeat statement
+                    wf_stmt_at(ss, s);
+                    let body = par(ss, s);
+                    assert(first_scope(ss, i) == body);
+                    lemma_level_complete(ss, body, pos, s, k, d);
+                    lemma_level_char(ss, body, p, pos, x);
+                } else {
+                    if stmt_kind(kd(ss, s)) { wf_stmt_at(ss, s); }
+                    lemma_level_complete(ss, i, pos, s, k, d);
+                    lemma_level_char(ss, i, p, pos, x);
+                }
+            }
+        }
+    }
+}
+
+/// the whole lookup from the scope find_scope returns: exactly the declarations the real code's notion of visibility admits
+pub proof fn lemma_entry(ss: Seq<LuaScope>, l: int, pos: int)
+    requires tree_wf(ss), is_leaf(ss, l, pos)
+    ensures sound_seq(ss, m_visit(ss, l, pos, true), pos), complete_from(ss, m_visit(ss, l, pos, true), pos, l)
+{
+    let t = m_visit(ss, l, pos, true);
+    lemma_visit_unfold(ss, l, pos, true);
+    lemma_ctx_leaf(ss, l, pos);
+    wf_basic(ss);
+    if l > 0 { let kl = wf_parent(ss, l); }
+    if kd(ss, l) == LuaScopeKind::LocalOrAssignStat {
+        wf_stmt_at(ss, l);
+        assert(chain_step(ss, l, st(ss, l), pos));
+        lemma_up(ss, l, st(ss, l), pos);
+        assert forall|s: int, k: int, d: LuaDeclId| 0 <= s < ss.len() && #[trigger] is_decl_child(ss, s, k, d) && region(ss, s, d, pos, false) && lvl(ss, s, pos) <= l
+            implies t.contains(ScopeOrDeclId::Decl(d)) by {
+            lemma_lvl_chain(ss, s, k, d, pos, l);
+        }
+    } else if kd(ss, l) == LuaScopeKind::ForRange {
+        if l > 0 {
+            assert(chain_step(ss, l, pos, pos));
+            lemma_up(ss, l, pos, pos);
+        } else {
+            assert(t =~= Seq::<ScopeOrDeclId>::empty());
+        }
+        assert forall|s: int, k: int, d: LuaDeclId| 0 <= s < ss.len() && #[trigger] is_decl_child(ss, s, k, d) && region(ss, s, d, pos, false) && lvl(ss, s, pos) <= l
+            implies t.contains(ScopeOrDeclId::Decl(d)) by {
+            lemma_lvl_chain(ss, s, k, d, pos, l);
+            if lvl(ss, s, pos) == l {
+                if stmt_kind(kd(ss, s)) { wf_stmt_at(ss, s); }
+                else {
+                    let kc = choose|kc: int| 0 <= kc < kids(ss, s).len() && (#[trigger] kids(ss, s)[kc] matches ScopeOrDeclId::Scope(sid) && rng(ss, sid.id as int, pos));
+                    assert(false);
+                }
+            }
+        }
+    } else if kd(ss, l) == LuaScopeKind::Repeat {
+        wf_repeat_at(ss, l);
+        let body = first_scope(ss, l);
+        lemma_visit_unfold(ss, body, pos, true);
+        lemma_visit_unfold(ss, l, pos, false);
+        assert(kids(ss, l)[0] matches ScopeOrDeclId::Scope(sid) ==> !rng(ss, sid.id as int, pos));
+        lemma_ctx_aside(ss, body, pos, pos);
+        let a_s = m_search(ss, body, pos);
+        let bs = m_search(ss, l, pos);
+        let cs = m_up(ss, l, pos);
+        assert(t == a_s + (a_s + bs + cs));
+        lemma_body_search_sound(ss, l, pos, pos);
+        lemma_search_sound(ss, l, pos, pos);
+        if l > 0 {
+            assert(chain_step(ss, l, pos, pos));
+            lemma_up(ss, l, pos, pos);
+        } else {
+            assert(cs =~= Seq::<ScopeOrDeclId>::empty());
+        }
+        lemma_sound_concat(ss, a_s, bs, pos);
+        lemma_sound_concat(ss, a_s + bs, cs, pos);
+        lemma_sound_concat(ss, a_s, a_s + bs + cs, pos);
+        assert forall|s: int, k: int, d: LuaDeclId| 0 <= s < ss.len() && #[trigger] is_decl_child(ss, s, k, d) && region(ss, s, d, pos, false) && lvl(ss, s, pos) <= l
+            implies t.contains(ScopeOrDeclId::Decl(d)) by {
+            let x = ScopeOrDeclId::Decl(d);
+            lemma_lvl_chain(ss, s, k, d, pos, l);
+            lemma_concat_contains(a_s, a_s + bs + cs, x);
+            lemma_concat_contains(a_s + bs, cs, x);
+            if lvl(ss, s, pos) == l {
+                assert(stmt_kind(kd(ss, s)));
+                wf_stmt_at(ss, s);
+                assert(par(ss, s) == body);
+                lemma_level_complete(ss, body, pos, s, k, d);
+                lemma_level_char(ss, body, pos, pos, x);
+            }
+        }
+    } else {
+        let bs = m_search(ss, l, pos);
+        let cs = m_up(ss, l, pos);
+        assert(t == bs + cs);
+        lemma_search_sound(ss, l, pos, pos);
+        if l > 0 {
+            assert(chain_step(ss, l, pos, pos));
+            lemma_up(ss, l, pos, pos);
+        } else {
+            assert(cs =~= Seq::<ScopeOrDeclId>::empty());
+        }
+        lemma_sound_concat(ss, bs, cs, pos);
+        assert forall|s: int, k: int, d: LuaDeclId| 0 <= s < ss.len() && #[trigger] is_decl_child(ss, s, k, d) && region(ss, s, d, pos, false) && lvl(ss, s, pos) <= l
+            implies t.contains(ScopeOrDeclId::Decl(d)) by {
+            let x = ScopeOrDeclId::Decl(d);
+            lemma_lvl_chain(ss, s, k, d, pos, l);
+            lemma_concat_contains(bs, cs, x);
+            if lvl(ss, s, pos) == l {
+                if stmt_kind(kd(ss, s)) { wf_stmt_at(ss, s); }
+                lemma_level_complete(ss, l, pos, s, k, d);
+                lemma_level_char(ss, l, pos, pos, x);
+            }
+        }
+    }
+}
+/// THE LINK: the traversal started at the scope find_scope returns emits exactly the declarations `visible` (code reading) admits
+pub proof fn lemma_trace_is_visible(ss: Seq<LuaScope>, l: int, pos: int)
+    requires tree_wf(ss), is_leaf(ss, l, pos)
+    ensures forall|d: LuaDeclId| #[trigger] m_visit(ss, l, pos, true).contains(ScopeOrDeclId::Decl(d)) <==> visible(ss, d, pos, false),
+        forall|x: ScopeOrDeclId| #[trigger] m_visit(ss, l, pos, true).contains(x) ==> x is Decl,
+{
+    lemma_entry(ss, l, pos);
+    let t = m_visit(ss, l, pos, true);
+    assert forall|d: LuaDeclId| visible(ss, d, pos, false) implies #[trigger] t.contains(ScopeOrDeclId::Decl(d)) by {
+        let (s, k) = choose|s: int, k: int| 0 <= s < ss.len() && is_decl_child(ss, s, k, d) && region(ss, s, d, pos, false);
+        // the level of a visible declaration is a scope around pos, hence the leaf or above it
+        if stmt_kind(kd(ss, s)) { wf_stmt_at(ss, s); }
+        else if kd(ss, s) == LuaScopeKind::ForRange {
+            let kc = choose|kc: int| 0 <= kc < kids(ss, s).len() && (#[trigger] kids(ss, s)[kc] matches ScopeOrDeclId::Scope(sid) && rng(ss, sid.id as int, pos));
+            wf_child(ss, s, kc);
+            lemma_inside_parent(ss, sidx(kids(ss, s)[kc]), pos);
+        }
+        let lv = lvl(ss, s, pos);
+        assert(0 <= lv < ss.len() && inside(ss, lv, pos));
+        lemma_leaf_innermost(ss, l, lv, pos);
+    }
+}
+/// Lua's reading implies the code's; outside loop / function headers the two coincide
+pub proof fn lemma_lua_vs_code(ss: Seq<LuaScope>, d: LuaDeclId, pos: int)
+    requires tree_wf(ss)
+    ensures visible(ss, d, pos, true) ==> visible(ss, d, pos, false),
+        !in_header(ss, pos) ==> (visible(ss, d, pos, false) ==> visible(ss, d, pos, true)),
+{
+    if visible(ss, d, pos, true) {
+        let (s, k) = choose|s: int, k: int| 0 <= s < ss.len() && is_decl_child(ss, s, k, d) && region(ss, s, d, pos, true);
+        if kd(ss, s) == LuaScopeKind::Normal || kd(ss, s) == LuaScopeKind::ForRange {
+            let kb = kids(ss, s).len() - 1;
+            wf_child(ss, s, kb);
+            lemma_inside_parent(ss, sidx(kids(ss, s)[kb]), pos);
+            assert(kids(ss, s)[kb] matches ScopeOrDeclId::Scope(sid) && rng(ss, sid.id as int, pos));
+        }
+        assert(region(ss, s, d, pos, false));
+    }
+    if !in_header(ss, pos) && visible(ss, d, pos, false) {
+        let (s, k) = choose|s: int, k: int| 0 <= s < ss.len() && is_decl_child(ss, s, k, d) && region(ss, s, d, pos, false);
+        if kd(ss, s) == LuaScopeKind::Normal || kd(ss, s) == LuaScopeKind::ForRange {
+            if kd(ss, s) == LuaScopeKind::ForRange {
+                let kc = choose|kc: int| 0 <= kc < kids(ss, s).len() && (#[trigger] kids(ss, s)[kc] matches ScopeOrDeclId::Scope(sid) && rng(ss, sid.id as int, pos));
+                wf_child(ss, s, kc);
+                lemma_inside_parent(ss, sidx(kids(ss, s)[kc]), pos);
+            }
+            assert(kids(ss, s)[k] is Decl);
+            assert(in_body(ss, s, pos));
+        }
+        assert(region(ss, s, d, pos, true));
+    }
+}
+
+// ===== order of the trace: closest (latest declared) first ================================================================================
+pub open spec fn xpos(x: ScopeOrDeclId) -> int { match x { ScopeOrDeclId::Decl(d) => pos_of(d), ScopeOrDeclId::Scope(_) => -1 } }
+/// x and y are two names of one `local` / assignment statement
+pub open spec fn same_stmt(ss: Seq<LuaScope>, x: ScopeOrDeclId, y: ScopeOrDeclId) -> bool {
+    x is Decl && y is Decl && exists|s: int| 0 <= s < ss.len() && kd(ss, s) == LuaScopeKind::LocalOrAssignStat
+        && #[trigger] kids(ss, s).contains(x) && kids(ss, s).contains(y)
+}
+/// an element with a larger position than an earlier one is a repetition of something emitted before that one, or the two are names of
+/// one statement (the real code walks those forward)
+pub open spec fn ordered(ss: Seq<LuaScope>, t: Seq<ScopeOrDeclId>) -> bool {
+    forall|a: int, b: int| 0 <= a < t.len() && 0 <= b < t.len() && xpos(#[trigger] t[b]) > xpos(#[trigger] t[a])
+        ==> (exists|c: int| 0 <= c < a && t[c] == t[b]) || same_stmt(ss, t[a], t[b])
+}
+pub open spec fn cross(x: Seq<ScopeOrDeclId>, y: Seq<ScopeOrDeclId>) -> bool {
+    forall|a: int, b: int| 0 <= a < x.len() && 0 <= b < y.len() && xpos(#[trigger] y[b]) > xpos(#[trigger] x[a]) ==> x.contains(y[b])
+}
+pub proof fn lemma_ordered_concat(ss: Seq<LuaScope>, x: Seq<ScopeOrDeclId>, y: Seq<ScopeOrDeclId>)
+    requires ordered(ss, x), ordered(ss, y), cross(x, y)
+    ensures ordered(ss, x + y)
+{
+    let t = x + y;
+    assert forall|a: int, b: int| 0 <= a < t.len() && 0 <= b < t.len() && xpos(#[trigger] t[b]) > xpos(#[trigger] t[a])
+        implies (exists|c: int| 0 <= c < a && t[c] == t[b]) || same_stmt(ss, t[a], t[b]) by {
+        if a < x.len() && b < x.len() {
+            assert(xpos(x[b]) > xpos(x[a]));
+            if exists|c: int| 0 <= c < a && x[c] == x[b] {
+                let c = choose|c: int| 0 <= c < a && x[c] == x[b];
+                assert(t[c] == t[b]);
+            }
+        } else if a >= x.len() && b >= x.len() {
+            let a1 = a - x.len(); let b1 = b - x.len();
+            assert(xpos(y[b1]) > xpos(y[a1]));
+            if exists|c: int| 0 <= c < a1 && y[c] == y[b1] {
+                let c = choose|c: int| 0 <= c < a1 && y[c] == y[b1];
+                assert(t[c + x.len()] == t[b]);
+            }
+        } else if a < x.len() {
+            let b1 = b - x.len();
+            assert(xpos(y[b1]) > xpos(x[a]));
+            assert(x.contains(y[b1]));
+            let m = choose|m: int| 0 <= m < x.len() && x[m] == y[b1];
+            assert(xpos(x[m]) > xpos(x[a]));
+            if exists|c: int| 0 <= c < a && x[c] == x[m] {
+                let c = choose|c: int| 0 <= c < a && x[c] == x[m];
+                assert(t[c] == t[b]);
+            }
+        } else {
+            assert(t[b] == t[b] && 0 <= b < a);
+        }
+    }
+}
+pub proof fn lemma_ordered_empty(ss: Seq<LuaScope>)
+    ensures ordered(ss, Seq::<ScopeOrDeclId>::empty())
+{}
+/// what a child emits lies in the child's extent
+pub proof fn lemma_child_has_bounds(ss: Seq<LuaScope>, i: int, k: int, x: ScopeOrDeclId)
+    requires tree_wf(ss), 0 <= i < ss.len(), 0 <= k < kids(ss, i).len(), child_has(ss, kids(ss, i)[k], x)
+    ensures x is Decl, cpos(ss, kids(ss, i)[k]) <= xpos(x) < cend(ss, kids(ss, i)[k])
+{
+    let c = kids(ss, i)[k];
+    if c is Scope {
+        wf_child(ss, i, k);
+        wf_stmt_at(ss, sidx(c));
+        let j = choose|j: int| 0 <= j < kids(ss, sidx(c)).len() && kids(ss, sidx(c))[j] == x;
+        assert(kids(ss, sidx(c))[j] is Decl);
+    }
+}
+/// the declarations a statement scope exposes: names of one statement (LocalOrAssignStat), or at most one name (function statement)
+pub proof fn lemma_child_ordered(ss: Seq<LuaScope>, c: ScopeOrDeclId)
+    requires tree_wf(ss)
+    ensures ordered(ss, m_child(ss, c))
+{
+    let t = m_child(ss, c);
+    assert forall|a: int, b: int| 0 <= a < t.len() && 0 <= b < t.len() && xpos(#[trigger] t[b]) > xpos(#[trigger] t[a])
+        implies (exists|c2: int| 0 <= c2 < a && t[c2] == t[b]) || same_stmt(ss, t[a], t[b]) by {
+        assert(t.contains(t[a]) && t.contains(t[b]));
+        lemma_child_char(ss, c, t[a]);
+        lemma_child_char(ss, c, t[b]);
+        if c is Scope {
+            let s = sidx(c);
+            if func_kind(kd(ss, s)) {
+                wf_func_at(ss, s);
+                let ja = choose|j: int| 0 <= j < kids(ss, s).len() && kids(ss, s)[j] == t[a];
+                let jb = choose|j: int| 0 <= j < kids(ss, s).len() && kids(ss, s)[j] == t[b];
+                assert(kids(ss, s)[ja] is Decl && kids(ss, s)[jb] is Decl);
+                assert(false);
+            } else {
+                assert(kids(ss, s).contains(t[a]) && kids(ss, s).contains(t[b]));
+                assert(same_stmt(ss, t[a], t[b]));
+            }
+        } else {
+            assert(t.len() == 1);
+        }
+    }
+}
+/// the reverse walk over children 0..=j of an ordered scope
+pub proof fn lemma_walk_ordered(ss: Seq<LuaScope>, i: int, j: int)
+    requires tree_wf(ss), 0 <= i < ss.len(), kd(ss, i) != LuaScopeKind::LocalOrAssignStat, -1 <= j < kids(ss, i).len()
+    ensures ordered(ss, m_walk(ss, kids(ss, i), j))
+    decreases j + 1
+{
+    let ks = kids(ss, i);
+    if j >= 0 {
+        lemma_walk_ordered(ss, i, j - 1);
+        lemma_child_ordered(ss, ks[j]);
+        let x = m_child(ss, ks[j]);
+        let y = m_walk(ss, ks, j - 1);
+        assert forall|a: int, b: int| 0 <= a < x.len() && 0 <= b < y.len() && xpos(#[trigger] y[b]) > xpos(#[trigger] x[a]) implies x.contains(y[b]) by {
+            assert(x.contains(x[a]) && y.contains(y[b]));
+            lemma_child_char(ss, ks[j], x[a]);
+            lemma_child_has_bounds(ss, i, j, x[a]);
+            lemma_walk_char(ss, ks, j - 1, y[b]);
+            let k = choose|k: int| 0 <= k <= j - 1 && child_has(ss, ks[k], y[b]);
+            lemma_child_has_bounds(ss, i, k, y[b]);
+            wf_order_at(ss, i, k, j);
+            assert(false);
+        }
+        lemma_ordered_concat(ss, x, y);
+    }
+}
+pub proof fn lemma_search_ordered(ss: Seq<LuaScope>, i: int, p: int)
+    requires tree_wf(ss), 0 <= i < ss.len(), kd(ss, i) != LuaScopeKind::LocalOrAssignStat
+    ensures ordered(ss, m_search(ss, i, p))
+{
+    lemma_cut_props(ss, kids(ss, i), p, kids(ss, i).len() as int);
+    lemma_walk_ordered(ss, i, m_cut(ss, kids(ss, i), p, kids(ss, i).len() as int));
 }
